@@ -15,11 +15,26 @@ VERIF = os.path.dirname(os.path.dirname(os.path.abspath(__file__)))
 REPO = '/repo'
 
 
-def run(cmd, cwd, env=None, timeout=3600):
+def _limits():
+    import resource
+    resource.setrlimit(resource.RLIMIT_AS, (24 << 30, 24 << 30))
+
+
+def run(cmd, cwd, env=None, timeout=1500):
+    import signal
     t = time.time()
-    p = subprocess.run(cmd, cwd=cwd, env=env, stdout=subprocess.PIPE, stderr=subprocess.STDOUT,
-                       text=True, timeout=timeout)
-    return p.returncode, p.stdout, time.time() - t
+    p = subprocess.Popen(cmd, cwd=cwd, env=env, stdout=subprocess.PIPE, stderr=subprocess.STDOUT,
+                         text=True, preexec_fn=_limits, start_new_session=True)
+    try:
+        out, _ = p.communicate(timeout=timeout)
+    except subprocess.TimeoutExpired:
+        try:
+            os.killpg(p.pid, signal.SIGKILL)
+        except Exception:
+            pass
+        p.wait()
+        return 124, 'TIMEOUT after %ss' % timeout, time.time() - t
+    return p.returncode, out, time.time() - t
 
 
 def main():
@@ -68,7 +83,7 @@ def main():
             if not args.skip_tests:
                 env = dict(os.environ, PYTHONDONTWRITEBYTECODE='1')
                 rc, out, dt = run(['/venv/bin/python', '-m', 'pytest', '-q', '-x', '-p', 'no:cacheprovider',
-                                   'pyModelChecking/tests'], dst, env)
+                                   'pyModelChecking/tests'], dst, env, timeout=120)
                 rec['tests_pass'] = (rc == 0)
                 rec['tests_tail'] = out.strip().splitlines()[-1] if out.strip() else ''
             props = m['props']
